@@ -38,7 +38,7 @@ func (d *structTypeFieldTextDecoder) Decode(req *protocol.Request, params param.
 	var defaultValue string
 	for _, tagInfo := range d.tagInfos {
 		if tagInfo.Skip || tagInfo.Key == jsonTag || tagInfo.Key == fileNameTag {
-			if tagInfo.Key == jsonTag {
+			if tagInfo.Key == jsonTag && !tagInfo.Skip { // `json:"-"`: the body is no source for this field
 				defaultValue = tagInfo.Default
 				found := checkRequireJSON(req, tagInfo)
 				if found {
